@@ -780,7 +780,8 @@ def rule_roll(ctx: Ctx):
             ok = False
             why = "no test on (counter, window)"
             for e in cd:
-                nf = normalise_cmp(e.test, True)
+                # the relation that holds on this path (the test with its outcome), whichever way the test is spelled
+                nf = normalise_cmp(e.test, e.outcome)
                 if nf is None:
                     continue
                 op, co, c = nf
@@ -790,9 +791,10 @@ def rule_roll(ctx: Ctx):
                     cc = {k: v * s for k, v in co.items()}
                     c2 = c * s
                     op2 = op if s == 1 else {"GtE": "LtE", "LtE": "GtE", "Gt": "Lt", "Lt": "Gt"}.get(op, op)
-                    if cc == {cnt: 1, window: -1} and c2 == 1 and op2 in ("Eq", "GtE"):
-                        ok = (bool(e.outcome) == closed)
-                        why = "test outcome %s but window %s" % (e.outcome, "completed" if closed else "left open")
+                    if cc == {cnt: 1, window: -1} and c2 == 1 and op2 in ("Eq", "GtE", "NotEq", "Lt"):
+                        full = op2 in ("Eq", "GtE")          # counter + 1 == window holds on this path
+                        ok = (full == closed)
+                        why = "counter + 1 %s window holds but the window is %s" % (op2, "completed" if closed else "left open")
                     else:
                         why = "it tests counter %+d %s window instead of counter + 1 == window" % (c2, op2)
             r2.ob(ok, lambda why=why: mk_finding("DP-2", spec2, kind, cfg, p, "tumbling window closing test: %s" % why, extra="count-close"))
